@@ -7,7 +7,7 @@ use std::task::{Context as TaskCx, Poll, Waker};
 
 use dfir_pipes::pull::{Pull, PullStep};
 use dfir_pipes::{Context, EitherOrBoth};
-use vcommon::{Reporter, Value, json};
+use vcommon::{Value, json};
 
 use crate::script::{Ev, Shared, items_of, pends_of};
 
@@ -220,6 +220,34 @@ pub fn fused_checks() -> u64 {
     FUSED_CHECKS.with(|c| c.get())
 }
 
+/// One oracle failure, buffered so that the caller can attribute it (see `main::flush`).
+pub struct Finding {
+    pub sig: String,
+    pub what: String,
+    pub case: Value,
+}
+
+/// What a catalogue entry reports for one case: judgements made, failures, coverage counters.
+#[derive(Default)]
+pub struct Out {
+    pub evals: u64,
+    pub findings: Vec<Finding>,
+    pub counts: Vec<&'static str>,
+}
+
+impl Out {
+    #[inline]
+    pub fn eval(&mut self) {
+        self.evals += 1;
+    }
+    pub fn violation(&mut self, sig: &str, what: &str, case: Value) {
+        self.findings.push(Finding { sig: sig.to_string(), what: what.to_string(), case });
+    }
+    pub fn count(&mut self, name: &'static str) {
+        self.counts.push(name);
+    }
+}
+
 pub struct Opts {
     /// The combinator implements `FusedPull` for these input types (decided by the type system).
     pub fused: bool,
@@ -245,7 +273,7 @@ fn show_trace(tr: &Trace) -> String {
 }
 
 /// Apply the C11 rules to one trace. `site` is the combinator named in the signature.
-pub fn judge(rep: &mut Reporter, c: &Case, site: &str, tr: &Trace, expected: &[Code], o: &Opts) {
+pub fn judge(rep: &mut Out, c: &Case, site: &str, tr: &Trace, expected: &[Code], o: &Opts) {
     let sig = |kind: &str| format!("C11|{site}|{kind}");
     // progress / hang
     rep.eval();
